@@ -239,3 +239,79 @@ def nested_guards(flags, depth, ext=0, variant="default"):
             return None
         body = guard(body, env, c + guard_cost(flags), ext)
     return gen.tt(body), gen.tt(env)
+
+
+# ---------------------------------------------------------------------------------------------
+# programs from the repository's operator vectors (valid crypto inputs that no random generator finds)
+# ---------------------------------------------------------------------------------------------
+OPTEST_OPCODES = {
+    "i": 3, "c": 4, "f": 5, "r": 6, "l": 7, "x": 8, "=": 9, ">s": 10, "sha256": 11, "substr": 12, "strlen": 13,
+    "concat": 14, "+": 16, "-": 17, "*": 18, "/": 19, "divmod": 20, ">": 21, "ash": 22, "lsh": 23, "logand": 24,
+    "logior": 25, "logxor": 26, "lognot": 27, "point_add": 29, "pubkey_for_exp": 30, "not": 32, "any": 33, "all": 34,
+    "coinid": 48, "g1_add": 29, "g1_subtract": 49, "g1_multiply": 50, "g1_negate": 51, "g2_add": 52, "g2_subtract": 53,
+    "g2_multiply": 54, "g2_negate": 55, "g1_map": 56, "g2_map": 57, "bls_pairing_identity": 58, "bls_verify": 59,
+    "modpow": 60, "%": 61, "keccak256": 62, "sha256tree": 63,
+    "secp256k1_verify": bytes.fromhex("13d61f00"), "secp256r1_verify": bytes.fromhex("1c3a8f00"),
+}
+
+
+def _optest_atom(tok):
+    if tok.startswith("0x"):
+        return bytes.fromhex(tok[2:])
+    if tok.startswith('"') and tok.endswith('"'):
+        return tok[1:-1].encode()
+    try:
+        return i2a(int(tok))
+    except ValueError:
+        return None
+
+
+_OPTESTS = None
+
+
+def optest_calls(repo=None):
+    """-> list of (opname, opcode, [arg atoms], expect_fail) for the flat (atom-only) vectors"""
+    global _OPTESTS
+    if _OPTESTS is not None:
+        return _OPTESTS
+    import os
+    repo = repo or vlib.REPO
+    res = []
+    d = os.path.join(repo, "op-tests")
+    for fn in sorted(os.listdir(d)):
+        if not fn.endswith(".txt"):
+            continue
+        for line in open(os.path.join(d, fn)):
+            line = line.strip()
+            if not line or line.startswith(";") or "=>" not in line or "(" in line:
+                continue
+            lhs, rhs = line.split("=>", 1)
+            toks = lhs.split()
+            if not toks or toks[0] not in OPTEST_OPCODES:
+                continue
+            args = [_optest_atom(t) for t in toks[1:]]
+            if any(a is None for a in args):
+                continue
+            res.append((toks[0], OPTEST_OPCODES[toks[0]], args, rhs.strip().startswith("FAIL")))
+    _OPTESTS = res
+    return res
+
+
+def optest_programs(r, n, only=None):
+    """(p_tt, e_tt, name) programs `(op (q . a1) ... (q . ak))` sampled evenly over operator names"""
+    calls = optest_calls()
+    if only:
+        calls = [c for c in calls if c[0] in only]
+    by = {}
+    for c in calls:
+        by.setdefault(c[0], []).append(c)
+    names = sorted(by)
+    out = []
+    for i in range(n):
+        name = names[i % len(names)] if i < 3 * len(names) else r.choice(names)
+        nm, oc, args, fail = r.choice(by[name])
+        if sum(len(a) for a in args) > 5000:
+            continue
+        code = oc if isinstance(oc, bytes) else i2a(oc)
+        out.append((gen.tt(op(code, *[q(a) for a in args])), gen.tt(b""), nm))
+    return out
